@@ -130,3 +130,13 @@ def NARROW_STEPS(src):
            'impl_uint_aliases! {\n    (U8, 8, "8-bit"),\n    (U16, 16, "16-bit"),\n    (U24, 24, "24-bit"),\n'
            '    (U32, 32, "32-bit"),\n    (U40, 40, "40-bit"),\n    (U48, 48, "48-bit"),\n    (U56, 56, "56-bit")\n}\n'
            "impl_uint_concat_split_even! {\n    U16,\n    U32,\n    U48,\n    U64,\n}\n")
+
+
+def karatsuba_small(src):
+    """k8k profile: the boxed Karatsuba thresholds are lowered so that the recursive bodies of
+    karatsuba_mul_limbs / karatsuba_square_limbs (which the real thresholds 32 / 24 put out of a
+    bounded checker's reach) run at 2..6 limbs.  Only the two constants change; the code is /repo's."""
+    sub_exact(src, "uint/mul/karatsuba.rs", "pub const KARATSUBA_MIN_STARTING_LIMBS: usize = 32;",
+              "pub const KARATSUBA_MIN_STARTING_LIMBS: usize = 2;")
+    sub_exact(src, "uint/mul/karatsuba.rs", "pub const KARATSUBA_MAX_REDUCE_LIMBS: usize = 24;",
+              "pub const KARATSUBA_MAX_REDUCE_LIMBS: usize = 1;")
